@@ -76,6 +76,7 @@ struct Exec {
     Fnv log;       // event log hash
     Fnv beh;       // behaviour signature
     long disposal = 0;
+    bool null_ts = false;
     size_t cfg_snapshot_hash = 0;
     int cap_body = 1 << 22;
 };
@@ -732,8 +733,9 @@ static int do_call(Exec *ex, ConnState &c, int dir, const Chunk &ch, long &consu
     {
         g_seams.owner = c.idx + 1; g_in_data_call = true;
         ApiGuard g(dir == 0 ? "htp_connp_req_data" : "htp_connp_res_data");
-        if (dir == 0) { rc = htp_connp_req_data(cp, &tv, buf, (size_t) len); consumed = (long) htp_connp_req_data_consumed(cp); }
-        else { rc = htp_connp_res_data(cp, &tv, buf, (size_t) len); consumed = (long) htp_connp_res_data_consumed(cp); }
+        const htp_time_t *ts = ex->null_ts ? nullptr : &tv;   // the timestamp is optional in every call that takes one
+        if (dir == 0) { rc = htp_connp_req_data(cp, ts, buf, (size_t) len); consumed = (long) htp_connp_req_data_consumed(cp); }
+        else { rc = htp_connp_res_data(cp, ts, buf, (size_t) len); consumed = (long) htp_connp_res_data_consumed(cp); }
     }
     g_in_data_call = false;
     g_cur_call = nullptr;
@@ -886,7 +888,7 @@ static void api_open(Exec *ex, ConnState &c) {
     struct timeval tv; tv.tv_sec = (time_t) (g_seams.now_us / 1000000); tv.tv_usec = 0;
     g_cur_conn = &c; g_seams.owner = c.idx + 1;
     ApiGuard g("htp_connp_open");
-    htp_connp_open(c.connp, "192.168.2.3", 32768 + c.idx, "192.168.2.2", 80, &tv);
+    htp_connp_open(c.connp, ex->null_ts ? nullptr : "192.168.2.3", 32768 + c.idx, ex->null_ts ? nullptr : "192.168.2.2", 80, ex->null_ts ? nullptr : &tv);
     c.opened = true;
 }
 
@@ -931,7 +933,7 @@ void exec_op(Exec *ex, const Op &op) {
             g_cur_conn = &c;
             CallRec cr; memset(&cr, 0, sizeof cr); g_cur_call = &cr;
             g_seams.owner = c.idx + 1; g_in_data_call = true;
-            { ApiGuard g("htp_connp_req_close"); htp_connp_req_close(c.connp, &tv); }
+            { ApiGuard g("htp_connp_req_close"); htp_connp_req_close(c.connp, ex->null_ts ? nullptr : &tv); }
             g_in_data_call = false;
             g_cur_call = nullptr;
             c.req_closed = true;
@@ -945,7 +947,7 @@ void exec_op(Exec *ex, const Op &op) {
             g_cur_conn = &c;
             CallRec cr; memset(&cr, 0, sizeof cr); g_cur_call = &cr;
             g_seams.owner = c.idx + 1; g_in_data_call = true;
-            { ApiGuard g("htp_connp_close"); htp_connp_close(c.connp, &tv); }
+            { ApiGuard g("htp_connp_close"); htp_connp_close(c.connp, ex->null_ts ? nullptr : &tv); }
             g_in_data_call = false;
             g_cur_call = nullptr;
             c.closed = true;
@@ -1073,6 +1075,7 @@ void execute_plan(const Plan &p, RunResult &R) {
     g_seams.fs_fail_close_at = (int) p.cfg.get("fs_close_at", 0);
     if (p.alloc_fail_at) { g_seams.fail_at = (uint64_t) p.alloc_fail_at; g_seams.fail_sustained = p.alloc_sustained != 0; }
     ex.disposal = p.cfg.get("disposal", 0);
+    ex.null_ts = p.cfg.get("null_ts", 0) != 0;
     R = RunResult();
     R.conns.resize(p.conns.size());
     ex.conns.resize(p.conns.size());
